@@ -79,7 +79,7 @@ var corpus = [][]string{
 	4: { // js
 		"var a = 1, b = /re/g.test(x) ? a/2 : `t${a}l`;", "function f(a,b=1,...c){ if(a) return b; else for(let i of c) yield i }", "class A extends B { #p = 1; static m(){ super.m() } get x(){return this.#p} }",
 		"async () => { await x; label: while(1){ break label } }", "a = b\n++c; x = {y, [z]: 1, ...w}; try{}catch{}finally{}", "import a, {b as c} from 'm'; export default function(){}", "if (a) b; else c\nswitch(x){case 1: default:}", "x = a ?? b?.c?.[d]; 0x1F + 1_000n - .5e-3", "{\"a\":1}", "[1,\"x\",{\"y\":null}]",
-		"while(a){b}", "do x; while(y)", "for(var i=0;i<1;i++){}", "a=>{ let x = function*(){}; new.target }",
+		"while(a){b}", "do x; while(y)", "with(a){b=c}", "with (Math) x = cos(PI)", "debugger; throw new Error('e')", "for(var i=0;i<1;i++){}", "a=>{ let x = function*(){}; new.target }",
 		"/*! license */\n/*! second */\nvar été = 1; /*! third */\nété++", "/*! bang */ x = 1\n/*! bang2 */ y = 2",
 		"/*! a */", "/*! one */ f()", "/*! 1 */ /*! 2 */ /*! 3 */ /*! 4 */ a; b", "x = 1 /*! trailing */", "/*! c1 */\n/*! c2 */\n/*! c3 */\nlet q = {a: 1}", "function g(){ /*! inner */ return 1 }\n/*! outer */", "var ǩ = \"é\", 変数 = ǩ + 'ü'; /é+/gimsuy.test(変数)", "x = /[/]\\//u; y = a /é/ g; z = `a${`b${c}`}`", "// line\n/* block\n more */\nlet π = 3.14, \\u0061b = 2\nconsole.log(π)",
 		"label: for (const [k, v] of Object.entries(o)) { if (!v) continue label; else break }", "x = async function* () { for await (const y of z) yield* y }", "a ||= b; c &&= d; e ??= f; g **= 2; h >>>= 1", "if (a) function f(){}; var let = 1; yield = 2", "({a, b: [c, d = 1], ...e} = f); [g, , h] = i", "new A; new A.b(c); new new D()(); a?.(b)", "export {a as b, c}; export * from 'm'; import * as n from \"n\"", "class C { static #x; static { this.#x = 1 } ['m']() {} async *g() {} }", "a\n/b/g", "return 1", "x = {get a(){return 1}, set a(v){}, async b(){}, *c(){}}", "<!-- html comment\nx-->y", "1..toString(); 08.5; 0b101; 0o17; 1e+400",
@@ -287,7 +287,7 @@ func runWorkloadIn(in wlInput, scratch []byte) (out []byte) {
 			gt, tt, b := p.Next()
 			t.add("gram", gt.String(), tt.String(), b, p.Offset(), p.HasParseError())
 			for _, v := range p.Values() {
-				t.add(" val", v.TokenType.String(), v.Data)
+				t.add(" val", v.TokenType.String(), v.Data, v.String())
 			}
 			if gt == css.ErrorGrammar {
 				t.add("err", p.Err())
@@ -342,7 +342,7 @@ func runWorkloadIn(in wlInput, scratch []byte) (out []byte) {
 		for i := 0; i < 400; i++ {
 			call()
 			tt, b := l.Next()
-			t.add("tok", tt.String(), b)
+			t.add("tok", tt.String(), b, tt.Bytes(), js.IsNumeric(tt), js.IsPunctuator(tt), js.IsOperator(tt), js.IsIdentifierName(tt), js.IsReservedWord(tt), js.IsIdentifier(tt))
 			if (tt == js.DivToken || tt == js.DivEqToken) && in.opt&1 == 1 {
 				call()
 				rt, rb := l.RegExp()
@@ -466,7 +466,9 @@ func runWorkloadIn(in wlInput, scratch []byte) (out []byte) {
 		t.add("hash", css.ToHash(d).String(), html.ToHash(d).String())
 		q, qn := parse.QuoteEntity(d)
 		t.add("quoteent", q, qn)
-		t.add("jsident", js.AsIdentifierName(d), js.AsDecimalLiteral(d), js.IsIdentifierStart(d), js.IsIdentifierContinue(d))
+		t.add("jsident", js.AsIdentifierName(d), js.AsDecimalLiteral(d), js.IsIdentifierStart(d), js.IsIdentifierContinue(d), js.IsIdentifierEnd(d))
+		r1, g1, b1 := css.HSL2RGB(float64(in.opt)/64, float64(len(d)%7)/7, 0.5)
+		t.add("hsl", r1, g1, b1)
 	case wlPosition:
 		for _, off := range []int{0, len(d) / 2, len(d), in.opt % (len(d) + 1)} {
 			call()
@@ -613,7 +615,11 @@ func runWorkloadIn(in wlInput, scratch []byte) (out []byte) {
 		}
 		n, err := r.ReadAt(p, int64(len(d)/2))
 		t.add("readat", p[:n], err, r.Len())
+		r.Reset()
+		n, err = r.Read(p)
+		t.add("reread", p[:n], err)
 		w.Reset()
+		t.add("wclose", w.Close(), w.Len())
 		sw := buffer.NewStaticWriter(make([]byte, 0, 4))
 		n2, err2 := sw.Write(d)
 		t.add("static", n2, err2, sw.Bytes())
@@ -650,7 +656,15 @@ func runWorkloadIn(in wlInput, scratch []byte) (out []byte) {
 				if i > 20 {
 					break
 				}
-				t.add("declared", v.Name(), int(v.Decl), int(v.Uses))
+				t.add("declared", v.Name(), int(v.Decl), int(v.Uses), v.String())
+			}
+			byUses := append(js.VarArray{}, ast.Scope.Declared...)
+			sort.Sort(js.VarsByUses(byUses))
+			for i, v := range byUses {
+				if i > 10 {
+					break
+				}
+				t.add("byuses", v.Name())
 			}
 			for i, v := range ast.Scope.Undeclared {
 				if i > 20 {
